@@ -251,6 +251,12 @@ def step (st : State) (w : List String) : State × String :=
       | some e => ({ st with entries := insertAt st.entries (encKey qid cd (normScope to)) e }, "ok")
       | none => (st, "none")
     | _, _, _, _ => (st, "bad-op")
+  | ["pipe", "sget", _qid, cd, optEcs, mark, byp, k] =>
+    match parseBool cd, parseBool optEcs, parseBool mark, parseBool byp, k.toNat? with
+    | some cd, some optEcs, some mark, some byp, some k =>
+      let v : ReqView := { cd := cd, optEcs := optEcs, markEcs := mark, treeBypass := byp, scopeValid := false }
+      (st, s!"hit={boolStr (storeGetConsults v && st.cuts.contains k)}")
+    | _, _, _, _, _ => (st, "bad-op")
   | ["pipe", "badvers", c, _proto, _ver, copts] =>
     match parseClient c true, parseOpts copts with
     | some client, some (some l) =>
@@ -258,7 +264,7 @@ def step (st : State) (w : List String) : State × String :=
     | _, _ => (st, "bad-op")
   | ["pipe", "age", _, _] => (st, "ok")
   | ["pipe", "pfq"] => (st, "unmodelled")
-  | ["pipe", "nx", c, _qid, cd, copts, k] =>
+  | ["pipe", "nx", c, _proto, _qid, cd, copts, k] =>
     match parseClient c true, parseBool cd, parseOpts copts, k.toNat? with
     | some client, some cd, some copts?, some k =>
       let f := front st client cd copts?
@@ -268,7 +274,7 @@ def step (st : State) (w : List String) : State × String :=
         let cuts := if admitsDenial f.view cd then addCut st.cuts k else st.cuts
         ({ st with cuts := cuts }, s!"up=t cuts={cuts.length}")
     | _, _, _, _ => (st, "bad-op")
-  | ["pipe", "alias", c, _qid, cd, copts, k] =>
+  | ["pipe", "alias", c, _proto, _qid, cd, copts, k] =>
     match parseClient c true, parseBool cd, parseOpts copts, k.toNat? with
     | some client, some cd, some copts?, some k =>
       let f := front st client cd copts?
